@@ -11,7 +11,7 @@ PROP = {
         "no_deadlock", "waits_for_deeper",
         "query_stability", "query_reports_sound", "query_returns",
         "qmust_at_invoke", "qmay_at_invoke", "qmust_later", "qmay_later",
-        "race_free_partial", "race_witness", "race_free_false", "race_free_after_fix",
+        "race_free", "race_witness_prefix", "race_free_false_before_fix",
         "mutant_loses_leaf", "mutantTrace_not_real"]],
     "pre": [steps_C10.hook_probe, steps_C10.lock_facts],
     "components": [
@@ -21,8 +21,8 @@ PROP = {
     "extra": [steps_C10.race_stress],
     "monitor": "model",
     "level": "proof",
-    "rule": "cc sequences: sequential set-up ops + forced upgrade-window schedules (win/win2: Add A parked between RUnlock and "
-            "Lock of intermediateAdd while a competing add beneath the same node completes) + seeded free-running stress ops "
+    "rule": "cc sequences: sequential set-up ops + forced upgrade-window schedules on real goroutines parked at the "
+            "ctree.add.upgrade schedule point (win/win2: competing adds beneath the same node; windh: a delete inside a root window) + seeded free-running stress ops "
             "(G goroutines x rounds, histories checked in Go: fresh-branch adds survive, Wing-Gong linearizability of point "
             "ops incl. final content, query stability, deadline); exhaustive scope = all ordered pairs of adds over "
             "{a,b}^<=3 on three initial trees in both window shapes; a sequence is non-trivial when it has >= 3 ops and an "
@@ -31,8 +31,8 @@ PROP = {
         "Go memory model below lock granularity and pre-emption inside critical sections: validated with -race and "
         "history monitors, not proved (the theorems are about the locking protocol LTS)",
         "sync.RWMutex modelled as: write lock grantable iff no other holder, read lock iff no other writer",
-        "forced window without the hook: the competing writer is the real slowAdd run by the harness on the node it "
-        "holds read-locked while the adding goroutine is parked in Lock() (seam go/pkg_ctree/verif_c10.go)",
+        "the schedule point ctree.add.upgrade (build tag verif) is where the harness parks goroutines; the other "
+        "atomic-section boundaries of the LTS are exercised only by the free-running stress",
         "the Go-side history monitors (linearizability search, query stability) are the harness's own code",
     ],
     "assumptions": [
@@ -47,13 +47,12 @@ PROP = {
                       "add_linearises (the mutating step of Add equals sequential add on the current trie, whatever happened in "
                       "the reader->writer upgrade window; leaf_stable: concurrent adds beneath a new branch all survive), "
                       "delete_atomic, linearizable_point_ops (trie = sequential replay of the linearisation log, per-thread "
-                      "program order, returned result = logged result), race_free_partial + race_witness (the race clause is "
-                      "false of the code: defect D15), mutant_loses_leaf (without the re-check a leaf is lost). Tied to the code "
+                      "program order, returned result = logged result), race_free (every conflicting access pair shares a lock; "
+                      "race_witness_prefix: it did not before the repair of D15), no_deadlock, query_stability, mutant_loses_leaf (without the re-check a leaf is lost). Tied to the code "
                       "by regenerated lock-pattern facts, deterministic forced-window schedules on the real goroutines, seeded "
                       "free-running stress with history monitors, and -race runs.",
         "level_note": "PARTIAL: proof of the locking protocol LTS; Go's memory model below lock granularity and pre-emption inside "
-                      "critical sections are validated with -race/stress, not proved. The race clause holds only up to the known "
-                      "finding D15 (Leaf.Update vs internalDelete).",
+                      "critical sections are validated with -race/stress, not proved.",
         "technique": "Lean 4 proof (inductive invariant of an LTS + refinement to the sequential trie) + schedule replay + "
                      "history checking + race detector",
         "design_ref": "DESIGN.md §8 C10, Appendix E.2",
